@@ -25,7 +25,20 @@ TParseURI == /\ IsEvent("ParseURI") /\ Ev.detail = ""
              /\ ParseURI(Ev.sch, Ev.t) = Ev.p
              /\ c' = [k |-> "u", sch |-> Ev.sch, sep |-> Ev.sep, t |-> Ev.t]
 
-TNext == TParse \/ TParseURI
+\* a concrete binary key used by the harness for key class Ev.key: the bytes must really be in the class,
+\* and RoutingKey() must be "/ipns/" + exactly those bytes
+TNameKey == /\ IsEvent("NameKey")
+            /\ Ev.key \in KeyClasses /\ InClass(Ev.mh, Ev.key)
+            /\ Ev.rk = RoutingKeyOf(Ev.mh)
+            /\ c' = [k |-> "b", key |-> Ev.key, mh |-> Ev.mh]
+\* NameFromRoutingKey on a byte string derived from the current key: result = the rule, byte for byte
+TNameRK == /\ IsEvent("NameRK") /\ c.k = "b"
+           /\ Ev.v \in RkVariants /\ Ev.d = RkInput(Ev.v, c.mh)
+           /\ OneByteFraming(IF HasPrefix(Ev.d, Prefix) THEN RkRest(Ev.d) ELSE <<>>)
+           /\ FromRoutingKey(Ev.d) = Ev.r
+           /\ UNCHANGED c
+
+TNext == TParse \/ TParseURI \/ TNameKey \/ TNameRK
 TSpec == TInit /\ [][TNext]_tvars
 
 TraceConstraint == TLCSet(1, IF l - 1 > TLCGet(1) THEN l - 1 ELSE TLCGet(1))
